@@ -28,7 +28,7 @@ EXPLANATION = (
     "parameterised types, anything depending on what pandas/numpy/pyarrow objects print."
 )
 LEVEL_RULE = "one obligation per registry row / key / family member / duplicate pair found in the current tree"
-FLOORS = {"R1": 150, "R2": 60, "R3": 5, "R4": 100, "R5": 6, "R6": 20, "R7": 20, "R8": 3, "R9": 8, "R10": 1, "R11": 1}
+FLOORS = {"R1": 150, "R2": 60, "R3": 5, "R4": 100, "R5": 6, "R6": 20, "R7": 20, "R8": 3, "R9": 8, "R10": 1, "R11": 1, "R12": 1}
 
 ENGINE_FILES = [
     "pandera/engines/numpy_engine.py", "pandera/engines/pandas_engine.py", "pandera/engines/pyarrow_engine.py",
@@ -647,6 +647,42 @@ def r11_own_hook_only(ctx):
         raise AnalysisError("engine.py: no _register_from_parametrized_dtype call found")
 
 
+# fields whose value the native constructor canonicalises (confirmed by reading pandas: DatetimeTZDtype turns 'UTC' /
+# a pytz / zoneinfo spelling into one tzinfo object): the pandera field must be re-bound from the native object, otherwise
+# DateTime(tz='UTC') and the dtype resolved from pd.DatetimeTZDtype('ns', 'UTC') have equal `type` but unequal fields
+CANONICALISED_FIELDS = [("pandera/engines/pandas_engine.py", "DateTime", "tz")]
+
+
+def r12_canonical_fields(ctx):
+    """Equivalent spellings must resolve to *equal, equally hashed* objects.  The engine dtypes are dataclasses compared
+    field by field, so a field that the native constructor canonicalises has to be re-bound, in __post_init__, from the
+    native object that was built - not kept as the caller spelled it."""
+    from ..util import Expander
+    for path, cname, field in CANONICALISED_FIELDS:
+        m = ctx.ix.module(path)
+        cls = next((c for c in (m.all_classes if hasattr(m, "all_classes") else m.classes.values()) if c.name == cname), None)
+        if cls is None:
+            raise AnalysisError(f"{path}::{cname} missing")
+        post = cls.methods.get("__post_init__") or []
+        if not post:
+            raise AnalysisError(f"{cname}.__post_init__ missing")
+        ok = False
+        for g in post:
+            ex = Expander(g.node)
+            built = {t.id for st in walk_no_nested(g.node) if isinstance(st, ast.Assign) for t in st.targets if isinstance(t, ast.Name)
+                     and any(isinstance(x, ast.Call) and field in {k.arg for k in x.keywords} | {txt(a).split(".")[-1] for a in x.args} for x in ast.walk(st.value))}
+            for c in calls_in(g.node):
+                if callee_last(c) == "__setattr__" and len(c.args) == 3 and isinstance(c.args[1], ast.Constant) and c.args[1].value == field:
+                    names = {x.id for d in ex.closure(c.args[2]) for x in ast.walk(d) if isinstance(x, ast.Name)}
+                    attrs = {x.attr for d in ex.closure(c.args[2]) for x in ast.walk(d) if isinstance(x, ast.Attribute)}
+                    if (names & built) or field in attrs and not any(txt(x) == f"self.{field}" for d in ex.closure(c.args[2]) for x in ast.walk(d)):
+                        ok = True
+            ctx.ob("R12", g, f"{cname}.{field} is re-bound from the native dtype built in __post_init__", ok,
+                   "canonical value taken from the native object" if ok else
+                   f"`{field}` keeps the caller's spelling: {cname}({field}='UTC') and the dtype resolved from the equivalent native dtype have equal `type` but "
+                   f"unequal / differently hashed `{field}` fields, so equal spellings no longer resolve to equal objects", g.loc(g.node))
+
+
 def _norm_stmt(m, s):
     from ..util import canon_function_text
     if isinstance(s, (ast.FunctionDef, ast.AsyncFunctionDef)):
@@ -672,6 +708,7 @@ def run(ctx):
     r9_kind_conjunct(ctx)
     r10_no_name_reparse(ctx)
     r11_own_hook_only(ctx)
+    r12_canonical_fields(ctx)
     ctx.assume("equivalence keys are compared by normalised source text with import aliases expanded; keys that are "
                "equal only at run time (e.g. two spellings of one numpy dtype object) are not detected")
     ctx.assume("generated rows (_build_number_equivalents, _register_numpy_numbers, runtime pyarrow/pyspark objects) "
